@@ -90,4 +90,127 @@ Section PriorProofs.
     { replace (2 * q + 1 - i - j)%nat with (S (2 * q - i - j))%nat by lia. apply fnat_S_nonzero. }
     field. repeat split; assumption.
   Qed.
+
+  (* ------------------------------------------------------------------
+     Binomial theorem in divided-power form and the semigroup law of the
+     closed-form transition matrix:  A(h2) A(h1) = A(h1 + h2)  for every q. *)
+  Definition dpow (x : F) (n : nat) : F := fpow x n / ffact n.
+
+  Lemma fnat_0 : fnat 0 = (0 : F).
+  Proof. reflexivity. Qed.
+  Lemma fnat_succ (n : nat) : fnat (S n) = fnat n + (1 : F).
+  Proof.
+    unfold fnat. rewrite Nat2Z.inj_succ. unfold Z.succ.
+    destruct (Z.of_nat n) as [|p|p] eqn:Hz; simpl.
+    - ring.
+    - assert (Hsucc : forall p, fpos (Pos.succ p) = fpos p + (1:F)).
+      { induction p0 as [p0 IH|p0 IH|]; simpl; try rewrite IH; ring. }
+      rewrite Pos.add_1_r. apply Hsucc.
+    - lia.
+  Qed.
+
+  Lemma dpow_0 (x : F) : dpow x 0 = 1.
+  Proof. unfold dpow. simpl. field. apply (F_1_neq_0 fth). Qed.
+  Lemma dpow_S (x : F) n : fnat (S n) * dpow x (S n) = x * dpow x n.
+  Proof.
+    unfold dpow. cbn [fpow ffact].
+    pose proof (ffact_nonzero n). pose proof (fnat_S_nonzero n).
+    field. split; assumption.
+  Qed.
+
+  Lemma vsum_shift n (f : nat -> F) : vsum (S n) f = f 0%nat + vsum n (fun m => f (S m)).
+  Proof.
+    induction n as [|n IH]; simpl; [ring|].
+    simpl in IH. rewrite IH. ring.
+  Qed.
+
+  Theorem dpow_add (x y : F) : forall n,
+    dpow (x + y) n = vsum (S n) (fun m => dpow x m * dpow y (n - m)).
+  Proof.
+    induction n as [|n IH].
+    - simpl. rewrite !dpow_0. ring.
+    - set (Sn := vsum (S n) (fun m => dpow x m * dpow y (n - m))) in *.
+      set (Sn1 := vsum (S (S n)) (fun m => dpow x m * dpow y (S n - m))).
+      pose proof (fnat_S_nonzero n) as Hn.
+      assert (Hmain : fnat (S n) * Sn1 = (x + y) * Sn).
+      { (* split (n+1) = m + (n+1-m) termwise *)
+        assert (H1 : vsum (S (S n)) (fun m => fnat m * dpow x m * dpow y (S n - m)) = x * Sn).
+        { rewrite vsum_shift. rewrite fnat_0.
+          transitivity (vsum (S n) (fun m => x * (dpow x m * dpow y (n - m)))).
+          - transitivity (0 + vsum (S n) (fun m => fnat (S m) * dpow x (S m) * dpow y (S n - S m))); [ring|].
+            transitivity (vsum (S n) (fun m => fnat (S m) * dpow x (S m) * dpow y (S n - S m))); [ring|].
+            apply vsum_ext. intros m Hm. rewrite dpow_S. simpl. ring.
+          - unfold Sn. rewrite vsum_scale_l. reflexivity. }
+        assert (H2 : vsum (S (S n)) (fun m => dpow x m * (fnat (S n - m) * dpow y (S n - m))) = y * Sn).
+        { cbn [vsum]. rewrite Nat.sub_diag. rewrite fnat_0.
+          transitivity (vsum (S n) (fun m => y * (dpow x m * dpow y (n - m)))).
+          - transitivity (vsum (S n) (fun m => dpow x m * (fnat (S n - m) * dpow y (S n - m))) + 0); [cbn [vsum]; ring|].
+            transitivity (vsum (S n) (fun m => dpow x m * (fnat (S n - m) * dpow y (S n - m)))); [ring|].
+            apply vsum_ext. intros m Hm.
+            replace (S n - m)%nat with (S (n - m)) by lia. rewrite dpow_S. ring.
+          - unfold Sn. rewrite vsum_scale_l. reflexivity. }
+        transitivity (vsum (S (S n)) (fun m => fnat m * dpow x m * dpow y (S n - m))
+                      + vsum (S (S n)) (fun m => dpow x m * (fnat (S n - m) * dpow y (S n - m)))).
+        - unfold Sn1. rewrite <- vsum_scale_l. rewrite <- vsum_add. apply vsum_ext. intros m Hm.
+          assert (Hs : fnat (S n) = fnat m + fnat (S n - m)).
+          { clear - Hm FL. assert (Hadd : forall a b, fnat (a + b) = fnat a + (fnat b : F)).
+            { induction a as [|a IHa]; intro b; [rewrite fnat_0; simpl; ring|].
+              change (S a + b)%nat with (S (a + b)). rewrite !fnat_succ. rewrite IHa. ring. }
+            replace (S n) with (m + (S n - m))%nat at 1 by lia. apply Hadd. }
+          rewrite Hs. ring.
+        - rewrite H1, H2. ring. }
+      fold Sn1.
+      assert (Hd : fnat (S n) * dpow (x + y) (S n) = (x + y) * Sn) by (rewrite dpow_S; rewrite IH; reflexivity).
+      assert (Heq : fnat (S n) * dpow (x + y) (S n) = fnat (S n) * Sn1) by (rewrite Hd, Hmain; reflexivity).
+      transitivity (finv (fnat (S n)) * (fnat (S n) * dpow (x + y) (S n))); [field; exact Hn|].
+      rewrite Heq. field. exact Hn.
+  Qed.
+
+  Lemma vsum_split a b (f : nat -> F) :
+    vsum (a + b) f = vsum a f + vsum b (fun m => f (a + m)%nat).
+  Proof.
+    induction b as [|b IH].
+    - rewrite Nat.add_0_r. simpl. ring.
+    - replace (a + S b)%nat with (S (a + b)) by lia. cbn [vsum]. rewrite IH. ring.
+  Qed.
+  Lemma vsum_all_zero n (f : nat -> F) : (forall k, k < n -> f k = 0) -> vsum n f = 0.
+  Proof. intro Hz. rewrite (vsum_ext n f (fun _ => 0) Hz). apply vsum_zero. Qed.
+
+  Lemma vsum_window n i j (g : nat -> F) :
+    i <= j -> j < n ->
+    (forall k, k < n -> (k < i \/ j < k) -> g k = 0) ->
+    vsum n g = vsum (S (j - i)) (fun m => g (i + m)%nat).
+  Proof.
+    intros Hij Hjn Hz.
+    replace n with (i + (S (j - i) + (n - S j)))%nat at 1 by lia.
+    rewrite vsum_split. rewrite vsum_split.
+    rewrite (vsum_all_zero i) by (intros k Hk; apply Hz; lia).
+    rewrite (vsum_all_zero (n - S j)) by (intros k Hk; apply Hz; lia).
+    ring.
+  Qed.
+
+  (* Chapman-Kolmogorov for the transition matrix, every q, h1, h2 *)
+  Theorem iwp_A_semigroup q (h1 h2 : F) :
+    mmul (S q) (S q) (S q) (iwp_A_closed q h2) (iwp_A_closed q h1) = iwp_A_closed q (h1 + h2).
+  Proof.
+    unfold mmul. unfold iwp_A_closed at 3. apply mk_ext. intros i j Hi Hj.
+    destruct (Nat.leb_spec i j) as [Hij|Hij].
+    - rewrite (vsum_window (S q) i j); [|exact Hij|lia|].
+      2:{ intros k Hk Hout. unfold iwp_A_closed. rewrite !mget_mk by lia.
+          destruct Hout as [Ho|Ho].
+          - assert (Hl : Nat.leb i k = false) by (apply Nat.leb_gt; lia). rewrite Hl. ring.
+          - assert (Hl : Nat.leb k j = false) by (apply Nat.leb_gt; lia). rewrite Hl. ring. }
+      change (fpow (h1 + h2) (j - i) / ffact (j - i)) with (dpow (h1 + h2) (j - i)).
+      replace (h1 + h2) with (h2 + h1) by ring.
+      rewrite dpow_add. apply vsum_ext. intros m Hm.
+      unfold iwp_A_closed. rewrite !mget_mk by lia.
+      assert (H1 : Nat.leb i (i + m) = true) by (apply Nat.leb_le; lia).
+      assert (H2 : Nat.leb (i + m) j = true) by (apply Nat.leb_le; lia).
+      rewrite H1, H2. unfold dpow.
+      replace (i + m - i)%nat with m by lia. replace (j - (i + m))%nat with (j - i - m)%nat by lia.
+      reflexivity.
+    - apply vsum_all_zero. intros k Hk. unfold iwp_A_closed. rewrite !mget_mk by lia.
+      destruct (Nat.leb_spec i k) as [Hik|Hik]; [|ring].
+      assert (Hl : Nat.leb k j = false) by (apply Nat.leb_gt; lia). rewrite Hl. ring.
+  Qed.
 End PriorProofs.
